@@ -35,7 +35,7 @@ func main() {
 	run := lib.ParseArgs()
 	elaenv.InitLog(run.Out)
 	rng := lib.NewRng(run.Seed)
-	st := lib.NewStats("C12", "block trees on the real regnet BlockChain (fixture): trunk 1-6, 1-3 forks of depth 1-5 (25% forking off an earlier fork), <= 12 blocks, 35% with one context-invalid block (over-paying coinbase or double spend of the genesis output) inside a branch that ends above the trunk, 10% with an insane (no PoW) block; plus deep proof-of-work forks (7-15 below the tip, first side blocks delivered early, trunk grows, fork overtakes late); delivery natural / reversed (orphans first) / shuffled, 20% with a repeated delivery. nontrivial = history with a reorganisation, an orphan or an error; distinct by observation log")
+	st := lib.NewStats("C12", "block trees on the real regnet BlockChain (fixture): trunk 1-6, 1-3 forks of depth 1-5 (25% forking off an earlier fork), <= 12 blocks, 35% with one context-invalid block (over-paying coinbase or double spend of the genesis output) inside a branch that ends above the trunk, 10% with an insane (no PoW) block; plus in-order forks of depth 1-12 in the three height regimes (at or below CRCOnlyDPOSHeight / between / at or above RevertToPOWStartHeight) x consensus mode (DPoS, PoW, DPoS reverted to PoW) with the State's guard heights lowered, the real IsIrreversible on an exhaustive grid (3x3 height parameters x mode x 6 LIH values x tip height 0-16 x detach 0-17), and deep proof-of-work forks (7-15 below the tip, first side blocks delivered early, trunk grows, fork overtakes late); delivery natural / reversed (orphans first) / shuffled, 20% with a repeated delivery. nontrivial = history with a reorganisation, an orphan or an error; distinct by observation log")
 	sh := &lib.Shards{Dir: run.Out, Imports: "From ELA Require Import corr.C12_corr.", CaseType: "C12_corr.case",
 		Mismatch: "C12_corr.mismatches", Scope: "Z", PerShard: 10}
 	if run.Thorough() {
@@ -230,17 +230,17 @@ func main() {
 		doHist(&chaincase.Hist{Name: fmt.Sprintf("deep-%d", i), Blocks: bs, Order: ord})
 	}
 
-	// ---- the guard itself: real State.IsIrreversible on an exhaustive small grid
-	// (three height parameters x mode x LIH x tip height x detach count), compared
-	// with the model in the shards and with the specification (C12_guard_excludes)
-	// here
-	guardGrid(run, st, sh, &id, "C12")
-
 	// ---- height regimes x consensus modes on the real chain: the decision is
 	// judged when the heavier block arrives (in-order deliveries)
 	for i := 0; i < run.N(14, 300); i++ {
 		doHist(chaincase.RegimeFork(rng.Fork()))
 	}
+
+	// ---- the guard itself: real State.IsIrreversible on an exhaustive small grid
+	// (three height parameters x mode x LIH x tip height x detach count), compared
+	// with the model in the shards and with the specification (C12_guard_excludes)
+	// here
+	guardGrid(run, st, sh, &id, "C12")
 
 	// ---- generated
 	n := run.N(45, 800)
